@@ -9,10 +9,11 @@
      still in the instance and already has every validated field registered, so assigning even a conforming value
      is refused with the duplicate-name error: the known finding K2 (the property's assignment clause is false of
      the faithful model; the witness is replayed on the implementation by harness/props/c17.py);
-   - the class-definition dtype cross-check and what model_dump / iteration / repr expose are observed by the
-     harness only (pydantic's own machinery). *)
+   - [C17_class_definition]: a numpy array type is refused at class definition exactly when one of the scalar types it
+     names lies outside the tensor class's documented category (over the regenerated tables, via the finite C04 fact);
+   - what model_dump / iteration / repr expose is observed by the harness only (pydantic's own machinery). *)
 From Coq Require Import Permutation.
-From DL Require Import Base Lexer Parser Eval Shape Dtypes Check Context Hints Call Entry Structural PydanticProofs.
+From DL Require Import Base Lexer Parser Eval Shape Dtypes DtypeSpec GenDtypes Check Context Hints Call Entry Structural PydanticProofs.
 
 Theorem C17_field_order : forall fields c vals vals', Permutation vals vals' -> NoDup (map fst vals) ->
   run_pydantic_from c fields vals = run_pydantic_from c fields vals'.
@@ -29,5 +30,21 @@ Proof.
   intros fields vals cF n a x y H Hin Hl Hc. apply assignment_is_refused; auto.
   unfold run_pydantic in H. exact (proj1 (validated_fields_registered fields vals (ctx0 []) cF n a x H Hin Hl)).
 Qed.
+Lemma tables_are_documented : forall c l d, dtype_accepted (impl_dtypes c) l d = documented c l d.
+Proof. intros c l d. destruct c, l, d; vm_compute; reflexivity. Qed.
+Theorem C17_class_definition : forall c scalars,
+  class_def_refused (impl_dtypes c) scalars = existsb (fun d => negb (documented c LNumpy d)) scalars.
+Proof.
+  intros c scalars. unfold class_def_refused.
+  assert (H: forall d, negb (documented c LNumpy d) = negb (dtype_accepted (impl_dtypes c) LNumpy d)) by (intros; rewrite tables_are_documented; reflexivity).
+  destruct (impl_dtypes c) as [|t ts] eqn:E.
+  - induction scalars as [|d r IH]; simpl; auto. rewrite H. simpl. exact IH.
+  - induction scalars as [|d r IH]; [reflexivity|]. cbn [existsb]. rewrite <- IH. rewrite H. unfold dtype_accepted. reflexivity.
+Qed.
+Example class_definition_examples :
+  class_def_refused (impl_dtypes CInt) [KI32; KF32] = true /\ class_def_refused (impl_dtypes CInt) [KI32; KI64] = false /\
+  class_def_refused (impl_dtypes CFloat) [] = false /\ class_def_refused (impl_dtypes CTensorTypeBase) [KC64] = false.
+Proof. repeat split; reflexivity. Qed.
 Redirect "C17.assumptions.1" Print Assumptions C17_field_order.
+Redirect "C17.assumptions.3" Print Assumptions C17_class_definition.
 Redirect "C17.assumptions.2" Print Assumptions C17_assignment_refuted.
